@@ -1327,7 +1327,6 @@ def _child(mode, item, path):
         def progress(ev):
             f.write(json.dumps(ev) + '\n')
             f.flush()
-            os.fsync(f.fileno())
         try:
             replay_history(item, progress)
             progress({'end': True})
